@@ -520,10 +520,11 @@ fn js_value_to_json_with_visited(
                             // Ordinary objects serialize with their properties
                             let mut map = serde_json::Map::new();
                             // First collect keys to avoid borrowing issues
+                            // (symbol-keyed properties are not JSON members)
                             let props: Vec<_> = obj_ref
                                 .properties
                                 .iter()
-                                .filter(|(_, prop)| prop.enumerable())
+                                .filter(|(key, prop)| prop.enumerable() && !key.is_symbol())
                                 .map(|(k, p)| (k.to_string(), p.value.clone()))
                                 .collect();
                             drop(obj_ref); // Release borrow before recursive calls
